@@ -6,6 +6,7 @@ import json
 import os
 import re
 import subprocess
+os.environ['VERIF_EVIDENCE_DIR'] = '/tmp/verif-evidence-mutants'   # evidence/ holds records of the unchanged tree only
 import sys
 
 V = '/verif'
